@@ -109,9 +109,37 @@ def qty(rng, dim, allow_env=None):
         keys = list(allow_env) + ["default"]
         rng.shuffle(keys)
         return {k: qty(rng, dim) for k in keys[:rng.randint(1, len(keys))]}
-    if r < 0.6:
+    if r < 0.45:
         return v
+    if r < 0.6:
+        return typed(rng, v)
     return "%r %s" % (v, units_text(rand_sys(rng), dim))
+
+
+NUM_TYPES = ["np.int64", "np.int32", "np.float32", "np.float64", "Fraction", "int", "arange-item"]
+
+
+def typed(rng, v):
+    """a marker for the number v given as another numeric type (all are `numbers.Number`); materialised by `build`"""
+    t = rng.choice(NUM_TYPES)
+    if t in ("np.int64", "np.int32", "int", "arange-item"):
+        v = float(int(v))
+    return ["__num__", t, v]
+
+
+def materialize(x):
+    """drop the generator's private keys and turn number markers into numbers of their type"""
+    import numpy as np
+    if isinstance(x, dict):
+        return {k: materialize(v) for k, v in x.items() if not (isinstance(k, str) and k.startswith("_"))}
+    if isinstance(x, (list, tuple)):
+        if len(x) == 3 and x[0] == "__num__":
+            t, v = x[1], x[2]
+            return {"np.int64": lambda: np.int64(int(v)), "np.int32": lambda: np.int32(int(v)), "np.float32": lambda: np.float32(v),
+                    "np.float64": lambda: np.float64(v), "Fraction": lambda: Fraction(v), "int": lambda: int(v),
+                    "arange-item": lambda: np.arange(int(v), int(v) + 2)[0]}[t]()
+        return [materialize(v) for v in x]
+    return x
 
 
 def maybe_units(rng, d, fn):
@@ -152,6 +180,12 @@ def gen_model(rng, want_space=None):
     for j in range(rng.randint(0, 3)):
         lhs = [(rng.randint(1, 2), rng.choice(labels)) for _ in range(rng.randint(0, 2))]
         rhs = [(rng.randint(1, 2), rng.choice(labels)) for _ in range(rng.randint(0, 2))]
+        if rng.random() < 0.35:        # the same species written twice on one side (the coefficients add up)
+            l0 = rng.choice(labels)
+            if rng.random() < 0.5:
+                lhs = [(rng.randint(1, 2), l0), (rng.randint(1, 2), l0)]
+            else:
+                rhs = [(rng.randint(1, 2), l0), (rng.randint(1, 2), l0)]
         n, m = sum(c for c, _ in lhs), sum(c for c, _ in rhs)
         eq = " + ".join("%d %s" % t for t in lhs) + " -> " + " + ".join("%d %s" % t for t in rhs)
         r = {alias(rng, "reaction_from_dict", "stoichiometry"): eq}
@@ -163,6 +197,7 @@ def gen_model(rng, want_space=None):
             r[alias(rng, "reaction_from_dict", "label")] = "r%d" % j
         maybe_units(rng, r, "reaction_from_dict")
         r["_orders"] = (n, m)
+        r["_terms"] = (lhs, rhs)
         reactions.append(r)
     net = {"species": species}
     if reactions or rng.random() < 0.5:
@@ -251,7 +286,7 @@ def build(script):
     """run the real constructor chain; ('ok', RDScript) or ('error', exception name)"""
     from strengths.rdscript import rdscript_from_dict
     try:
-        return "ok", rdscript_from_dict(copy.deepcopy(strip_private(script)))
+        return "ok", rdscript_from_dict(materialize(script))
     except Exception as ex:  # noqa
         return "error", type(ex).__name__
 
@@ -327,6 +362,10 @@ def quantity_sites(script):
             n, m = d["_orders"]
             add("k+", "Reaction.kf", k_dim(n))
             add("k-", "Reaction.kr", k_dim(m))
+            # a reaction whose constants are absent can always be given one of the wrong order
+            for key, field, order in (("k+", "Reaction.kf", n), ("k-", "Reaction.kr", m)):
+                if find(d, fn, key) is None:
+                    out.append((path + "." + key, field, k_dim(order), d, key))
         elif fn == "rdgridspace_from_dict":
             add("cell_volume", "RDGridSpace.cell_vol", SPEC_DIM["RDGridSpace.cell_vol"])
         elif fn == "rdgraphspacenode_from_dict":
@@ -341,6 +380,21 @@ def quantity_sites(script):
             if k is not None and d[k] != "default":
                 out.append((path + ".t_max", "RDScript.t_max", (0, 1, 0), d, k))
     return out
+
+
+def first_only_order(site):
+    """for a rate-constant site of a reaction that writes a species twice on the relevant side: the order obtained when only
+    the first coefficient of each species is counted (differs from the true order); None otherwise"""
+    path, field, dim, cont, key = site
+    if field not in ("Reaction.kf", "Reaction.kr") or not isinstance(cont, dict) or "_terms" not in cont:
+        return None
+    terms = cont["_terms"][0 if field == "Reaction.kf" else 1]
+    first = {}
+    for c, l in terms:
+        first.setdefault(l, c)
+    true = sum(c for c, _ in terms)
+    low = sum(first.values())
+    return low if low != true else None
 
 
 def wrong_dim(rng, dim):
@@ -399,8 +453,13 @@ def inject(rng, script, info, cls):
         sites = sites + extra
         if not sites:
             return None
-        path, field, dim, cont, key = rng.choice(sites)
+        rsites = [x for x in sites if x[1] in ("Reaction.kf", "Reaction.kr") and first_only_order(x) is not None]
+        path, field, dim, cont, key = rng.choice(rsites if rsites and rng.random() < 0.5 else sites)
         d2 = wrong_dim(rng, dim)
+        lower = first_only_order((path, field, dim, cont, key))
+        if lower is not None and rng.random() < 0.7:
+            d2 = k_dim(lower)          # the order one gets by NOT adding up a repeated species
+            path += "(repeated-label)"
         s2 = rand_sys(rng)
         in_list = isinstance(cont, list)
         if in_list and rng.random() < 0.4:
@@ -425,7 +484,7 @@ def inject(rng, script, info, cls):
                         path = "script.t_sample.dimensionless_text[i]"
                     return path, {"op": "validate", "kind": "array_text", "field": field, "sys": sysj(DEFAULT_SYS), "v": rstr(v), "u": units_text(s2, d2)}, \
                         "text %r (dimension %s) in a list where %s is demanded" % (val, list(d2), list(dim))
-            if isinstance(cont[key], dict) and rng.random() < 0.7:      # inside a per-environment dictionary
+            if isinstance(cont.get(key) if isinstance(cont, dict) else cont[key], dict) and rng.random() < 0.7:      # inside a per-environment dictionary
                 kk = rng.choice(list(cont[key]))
                 cont[key][kk] = val
                 path += "{%s}" % kk
@@ -607,11 +666,18 @@ def spec_species(labels, sref):
     return labels.index(sref) if sref in labels else None
 
 
-def access(kind, shape, labels, sref, pos, accessor, periodic=()):
-    """run one accessor call on a fresh system; returns the observation"""
+def access(kind, shape, labels, sref, pos, accessor, periodic=(), reuse=None):
+    """run one accessor call on a fresh system; returns the observation.
+    reuse = {"resolve": label, "new_labels": [...]}: first resolve a species by label once, then replace the network's
+    species list through its public setter (the stored arrays keep their old layout), then make the call"""
     rds, state0, chem0, size = make_system(kind, shape, labels, periodic=periodic)
     p = tuple(pos) if isinstance(pos, (list, tuple)) else pos
     out = {}
+    if reuse is not None:
+        from strengths.rdnetwork import Species
+        for lbl in reuse["resolve"]:
+            rds.get_state_index(lbl, 0)
+        rds.network.species = [Species(l) for l in reuse["new_labels"]]
     try:
         if accessor == "get_state":
             out["value"] = float(rds.get_state(sref, p).value)
@@ -653,9 +719,12 @@ SPECIES_ACCESSORS = ["get_state", "set_state", "get_chemostat", "set_chemostat",
 SPACE_ACCESSORS = ["get_cell_index", "get_cell_env", "get_cell_vol", "get_neighbors"]
 
 
-def check_access(ctx, kind, shape, labels, sref, pos, accessor, periodic=()):
+def check_access(ctx, kind, shape, labels, sref, pos, accessor, periodic=(), reuse=None):
     """oracle for one accessor call; returns (observation, expected_valid)"""
-    got = access(kind, shape, labels, sref, pos, accessor, periodic)
+    got = access(kind, shape, labels, sref, pos, accessor, periodic, reuse)
+    built_labels = labels
+    if reuse is not None:
+        labels = reuse["new_labels"]          # the species list at the time of the call
     p = tuple(pos) if isinstance(pos, (list, tuple)) else pos
     size = shape[0] * shape[1] * shape[2] if kind == "grid" else shape
     cell = spec_cell(kind, shape, p)
@@ -664,8 +733,10 @@ def check_access(ctx, kind, shape, labels, sref, pos, accessor, periodic=()):
     needs_species = accessor in SPECIES_ACCESSORS
     s = spec_species(labels, sref) if needs_species else 0
     valid = cell is not None and s is not None
-    case = {"kind": "access", "space": kind, "shape": list(shape) if kind == "grid" else shape, "labels": labels, "species": sref,
+    case = {"kind": "access", "space": kind, "shape": list(shape) if kind == "grid" else shape, "labels": built_labels, "species": sref,
             "pos": list(p) if isinstance(p, tuple) else p, "accessor": accessor, "periodic": list(periodic)}
+    if reuse is not None:
+        case["reuse"] = reuse
     if accessor == "is_within_bounds":
         if got["result"] != "ok" or got.get("value") != (cell is not None):
             report(ctx, "position:is_within_bounds:%s" % ("coords" if isinstance(p, tuple) else "linear"),
@@ -675,6 +746,8 @@ def check_access(ctx, kind, shape, labels, sref, pos, accessor, periodic=()):
     if not valid:
         what = "unknown species" if (cell is not None and s is None) else "position outside the space"
         key = ("unknown-species:%s" % accessor) if (cell is not None and s is None) else ("position:%s:%s:%s" % (kind, form, accessor))
+        if reuse is not None:
+            key = "unknown-species:after-species-replaced:%s" % accessor
         if got["result"] == "ok" or got["state_changed"] or got["chem_changed"]:
             report(ctx, key, "%s(%r, %r) on a %s %r with %d species: %s, yet it %s" % (
                 accessor, sref, p, kind, shape, len(labels), what,
@@ -703,7 +776,7 @@ def check_access(ctx, kind, shape, labels, sref, pos, accessor, periodic=()):
         if got["state_changed"] != want_state or got["chem_changed"] != want_chem:
             ok = False
     if not ok:
-        report(ctx, "entry:%s:%s:%s" % (kind, form, accessor), "%s(%r, %r) on a %s %r does not address entry %d only" % (accessor, sref, p, kind, shape, idx),
+        report(ctx, ("entry:after-species-replaced:%s" % accessor) if reuse is not None else "entry:%s:%s:%s" % (kind, form, accessor), "%s(%r, %r) on a %s %r does not address entry %d only" % (accessor, sref, p, kind, shape, idx),
                       case, impl=got, expected={"entry": idx, "value": exp})
     return got, valid, case
 
@@ -824,10 +897,11 @@ def run(ctx):
         script, info = gen_model(rng, want)
         st, obj = build(script)
         if st != "ok":
+            # a model that is valid by construction is refused: the model (which accepts it) and the code disagree; the
+            # single-fault attribution is impossible for it, the stream goes on with the next model
             base_rejected += 1
             ctx.count("baseline_rejected")
-            if base_rejected <= 3:
-                ctx.notes.append("generated model rejected by the real code (%s): %r" % (obj, strip_private(script)))
+            ctx.disagree("validate:valid-model", {"kind": "valid-model", "script": strip_private(script)}, "raised " + obj, {"ok": None})
             continue
         ctx.count("baseline_accepted")
         faulted = copy.deepcopy(script)
@@ -838,8 +912,6 @@ def run(ctx):
         loc, op, what = res
         meta.append((cls, loc, what, faulted, info))
         ops.append(op if op is not None else {"op": "validate", "kind": "policy", "v": "on_iteration"})
-    if base_rejected > max(3, n // 50):
-        raise CheckBroken("the valid-model generator is rejected by the real code too often (%d of %d)" % (base_rejected, n))
     ops2 = []
     for op in ops:
         if op.get("kind") == "field_k":
@@ -875,6 +947,9 @@ def run(ctx):
 
     # ---------------------------------------------------------------- 2b. engine options through LibRDEngine.setup
     engine_options(ctx)
+
+    # ---------------------------------------------------------------- 2c. a network object re-used with another species list
+    species_reuse(ctx)
 
     # ---------------------------------------------------------------- 3. positional sweep
     positional_sweep(ctx)
@@ -1064,6 +1139,47 @@ def call(f):
         return "error", type(ex).__name__
 
 
+def species_reuse(ctx):
+    """one RDNetwork object re-used: resolve labels, replace the species list through the public setter, query again:
+    a label that is no longer a species must raise, the others must address the entry of their CURRENT index"""
+    rng = ctx.rng
+    ops, meta = [], []
+    for i in range(ctx.n(120, 2500)):
+        labels = rng.choice([["A", "B"], ["A", "B", "C"], ["A", "B", "C", "D"]])
+        kind = rng.choice(["grid", "graph"])
+        shape = (rng.randint(1, 2), rng.randint(1, 2), 1) if kind == "grid" else rng.randint(1, 3)
+        size = shape[0] * shape[1] * shape[2] if kind == "grid" else shape
+        how = rng.choice(["drop", "drop", "reverse", "rename", "drop-first"])
+        if how == "drop":
+            new = [l for l in labels if l != rng.choice(labels)]
+            new = new if len(new) < len(labels) else labels[:-1]
+        elif how == "drop-first":
+            new = labels[1:]
+        elif how == "reverse":
+            new = list(reversed(labels))
+        else:
+            new = [l if j != len(labels) - 1 else "Z" for j, l in enumerate(labels)]
+        reuse = {"resolve": rng.sample(labels, rng.randint(1, len(labels))), "new_labels": new, "how": how}
+        for sref in sorted(set(labels) | set(new)):
+            acc = rng.choice(SPECIES_ACCESSORS)
+            pos = rng.randrange(size)
+            got, valid, case = check_access(ctx, kind, shape, labels, sref, pos, acc, (), reuse)
+            ctx.case(("reuse", kind, str(shape), tuple(labels), tuple(new), sref, pos, acc), nontrivial=True)
+            ctx.count("species_reuse_" + ("valid" if valid else "removed-label"))
+            op = model_access_op(kind, shape, new, sref, pos, acc, got["state0"])
+            if op is not None and acc != "set_state":
+                ops.append(op)
+                meta.append((case, got, acc))
+    res = ctx.model.run(ops)
+    for (case, got, acc), r in zip(meta, res):
+        if r is None:
+            continue
+        if ("error" in r) != (got["result"] == "error"):
+            ctx.disagree("validate:access-after-species-replaced", case, {k: got[k] for k in ("result", "value", "exc") if k in got}, r)
+        elif "ok" in r and acc == "get_state_index" and got.get("value") != r["ok"]:
+            ctx.disagree("validate:access-after-species-replaced", case, got.get("value"), r)
+
+
 def positional_sweep(ctx):
     rng = ctx.rng
     shapes = [(w, h, d) for w in (1, 2, 3) for h in (1, 2, 3) for d in (1, 2, 3)]
@@ -1160,7 +1276,8 @@ def replay(ctx, rec):
         c = _C()
         pos = tuple(case["pos"]) if isinstance(case["pos"], list) else case["pos"]
         shape = tuple(case["shape"]) if isinstance(case["shape"], list) else case["shape"]
-        got, valid, _ = check_access(c, case["space"], shape, case["labels"], case["species"], pos, case["accessor"], tuple(case.get("periodic", ())))
+        got, valid, _ = check_access(c, case["space"], shape, case["labels"], case["species"], pos, case["accessor"], tuple(case.get("periodic", ())),
+                                     case.get("reuse"))
         return (not c.v), {"case": case, "impl": {k: got[k] for k in ("result", "value", "exc", "state_changed", "chem_changed") if k in got},
                            "valid_input": valid, "failures": c.v}
     if kind == "index-map":
